@@ -17,10 +17,17 @@ LEVEL_TEXT = {
 }
 NOTE = "Trusted: rustc/Kani MIR->goto translation, CBMC 6.11 + CaDiCaL, std-lite stubs (validated natively by `bin/check --selftest`), the environment contracts and oracles written in each harness. Bounded: nothing is claimed outside the per-harness bounds listed in the evidence file; dev-profile semantics (overflow panics)."
 
+LEVEL_TEXT["C19"] = "Partial: the recursion guard of the expression evaluator is decided for every depth (Kani), and the sub-claim 'plain float literals keep their value' is decided for f32 by an SMT (z3 FloatingPoint) witness that is replayed through the real crate (known finding F6). Precedence / unit / totality harnesses exist in the thorough tier only (they did not finish in 25 min) - see DESIGN 9.4."
 NA = {
  "C13": "subject is the block emitter's layout state machine judged by re-parsing; the oracle is saphyr-parser (5 kLoC scanner over VecDeque/String), which cannot be encoded within reach (DESIGN §5)",
  "C14": "needs serializer + parser + thread-local anchor table in one run; the thread_local with destructor makes Kani 0.68 abort with an internal compiler error and symbolic-key hash-map operations do not terminate (DESIGN §5)",
  "C15": "call-history independence rests on thread-local state (Kani ICE) and panicking visitors (Kani models panic=abort) (DESIGN §5)",
+ "C02": "event pump: three encodings tried, all out of memory (16-28 GB) or > 30 min - `Error` drop glue and SmallVec<[Ev;8]> (DESIGN 9.4); harnesses kept in harness/attic",
+ "C08": "alias limits live inline in LiveEvents::next_impl (event pump): same measurements as C02 (DESIGN 9.4)",
+ "C11": "per-document reset and recovery live in the event pump / ReadIter over the real parser: same measurements as C02; the budget side of recovery is covered under C07 (DESIGN 9.4)",
+ "C03": "merge expansion runs inside function-local MapAccess types over Vec<Ev>/VecDeque/HashSet<KeyFingerprint> and the Error type that made the pump harnesses run out of memory (DESIGN 9.4)",
+ "C05": "SeqAccess/MapAccess/EnumAccess are function-local types reachable only through YamlDeserializer + a visitor over ReplayEvents; earlier probe > 10 min for 5 events, pump measurements confirm (DESIGN 9.4)",
+ "C20": "every wrapper path ends in write_end_of_scalar / TupleSer whose Option<String> fields make Kani 0.68 abort with an internal compiler error (codegen_get_discriminant PosOverflow); write_folded_block alone did not finish in 25 min for 3-byte texts (thorough tier only, under C12)",
  "C18": "only compiled with garde/validator; path recorder is a HashMap<Vec<String>,..> and the oracle is the validation crates' derive output (DESIGN §5)",
 }
 
